@@ -46,7 +46,7 @@ package check
 //@   prop C01 C02
 //@   trusted soundness of the per-expression range computation (bounds.go) is assumed, not proved: on success the returned range is finite and, if the remembered facts are true, contains the expression's value
 //@   requires q != nil && n != nil
-//@   ensures implies(result1 == nil, result0[0] != nil && result0[1] != nil && implies(factsHold(q), inB(result0, wval(n))))
+//@   ensures implies(result1 == nil, result0[0] != nil && result0[1] != nil && bigval(result0[0]) <= bigval(result0[1]) && implies(old(factsHold(q)), inB(result0, wval(n)) && inR(result0, wval(n))))
 //@   ensures unchanged(q.facts) && unchanged(mem(q.facts))
 //@   modifies *q
 
@@ -88,8 +88,11 @@ package check
 //@ spec isCmp(op t.ID) bool = op == t.IDXBinaryNotEq || op == t.IDXBinaryLessThan || op == t.IDXBinaryLessEq || op == t.IDXBinaryEqEq || op == t.IDXBinaryGreaterEq || op == t.IDXBinaryGreaterThan
 //@ axiom cmpsem(e *a.Expr): implies(e != nil && isCmp(opOf(e)), lhsOf(e) != nil && rhsOf(e) != nil && wval(e) == ite(holds(opOf(e), wval(lhsOf(e)), wval(rhsOf(e))), 1, 0))
 //@ axiom constsem(e *a.Expr): implies(e != nil && cvOf(e) != nil, wval(e) == bigval(cvOf(e)))
-//@ axiom pkginit: zero != nil && one != nil && zero != one && bigval(zero) == 0 && bigval(one) == 1
+//@ axiom pkginit: zero != nil && one != nil && minusOne != nil && zero != one && bigval(zero) == 0 && bigval(one) == 1 && bigval(minusOne) == 0 - 1
 
+// inR: the same predicate as lib/interval's (identical definition, so the two name one function): opaque, so that the
+// containment clauses of the interval operations instantiate on it.
+//@ ospec inR(x bounds, v mathint) bool = (x[0] == nil || bigval(x[0]) <= v) && (x[1] == nil || v <= bigval(x[1]))
 // inB(b, v): v lies in the (possibly half-infinite) range b.
 //@ spec inB(b bounds, v mathint) bool = (b[0] == nil || bigval(b[0]) <= v) && (b[1] == nil || v <= bigval(b[1]))
 
@@ -162,3 +165,58 @@ package check
 //@   prop C02 C01
 //@   requires n != nil
 //@   ensures[value] implies(result1 == nil, result0 != nil && wval(result0) == wval(n))
+
+// ---- C01: the per-operator range computation (bounds.go) ----
+//@ func min
+//@   prop C01
+//@   pure
+//@   requires i != nil && j != nil
+//@   ensures (result == i || result == j) && bigval(result) <= bigval(i) && bigval(result) <= bigval(j)
+
+//@ func max
+//@   prop C01
+//@   pure
+//@   requires i != nil && j != nil
+//@   ensures (result == i || result == j) && bigval(result) >= bigval(i) && bigval(result) >= bigval(j)
+
+// The type tables (assumed: built by the package initialiser from literals): an
+// unsigned type's shift range and value range are [0, w-1] and [0, 2^w - 1].
+//@ axiom typetables(id int): implies(0 <= id && id < len(numShiftBounds) && numShiftBounds[id][0] != nil, id < len(numTypeBounds) && numShiftBounds[id][1] != nil && bigval(numShiftBounds[id][0]) == 0 && numTypeBounds[id][0] != nil && numTypeBounds[id][1] != nil && bigval(numTypeBounds[id][0]) == 0 && bigval(numTypeBounds[id][1]) == pow2(bigval(numShiftBounds[id][1]) + 1) - 1)
+
+//@ func bitMask
+//@   prop C01
+//@   trusted returns 2^nBits - 1 (table look-up for the common widths): assumed
+//@   pure
+//@   requires nBits >= 0
+//@   ensures result != nil && bigval(result) == pow2(math(nBits)) - 1
+
+// x + y and x - y: the range contains the value; the subtraction is tightened by
+// facts that order the two operands.
+//@ func (*checker).bcheckExprXBinaryPlus
+//@   prop C01
+//@   requires q != nil
+//@   ensures[contains] result1 == nil && forallm(a, forallm(b, implies(inB(lb, a) && inB(rb, b), inB(result0, a + b)))) && implies(lb[0] != nil && lb[1] != nil && rb[0] != nil && rb[1] != nil && bigval(lb[0]) <= bigval(lb[1]) && bigval(rb[0]) <= bigval(rb[1]), result0[0] != nil && result0[1] != nil)
+
+//@ func (*checker).bcheckExprXBinaryMinus
+//@   prop C01
+//@   requires q != nil && lhs != nil && rhs != nil && forall(k, 0, len(q.facts), q.facts[k] != nil) && lb[0] != nil && lb[1] != nil && rb[0] != nil && rb[1] != nil && bigval(lb[0]) <= bigval(lb[1]) && bigval(rb[0]) <= bigval(rb[1])
+//@   ensures[contains] result1 == nil && result0[0] != nil && result0[1] != nil && implies(old(factsHold(q)) && inB(lb, wval(lhs)) && inB(rb, wval(rhs)), inB(result0, wval(lhs) - wval(rhs)))
+//@   loop 1 invariant -1 <= rangeindex && rangeindex < len(q.facts) && nb[0] != nil && nb[1] != nil && implies(old(factsHold(q)) && inB(lb, wval(lhs)) && inB(rb, wval(rhs)), inB(nb, wval(lhs) - wval(rhs)))
+//@   loop 1 decreases len(q.facts) - rangeindex
+
+// bcheckExprBinaryOp1: given a range lb for the left operand (and the assumed
+// contract of bcheckExpr for the right one), the range returned for "lhs op rhs"
+// contains the operation's value - for *, /, %, <<, >> and the comparisons; the
+// arguments of / % << >> & | ^ are checked as the language requires.
+//@ func (*checker).bcheckExprBinaryOp1
+//@   prop C01
+//@   requires q != nil && lhs != nil && rhs != nil && forall(k, 0, len(q.facts), q.facts[k] != nil) && lb[0] != nil && lb[1] != nil && bigval(lb[0]) <= bigval(lb[1])
+//@   requires[scope] op != t.IDXBinaryTildeModPlus && op != t.IDXBinaryTildeModMinus && op != t.IDXBinaryTildeModStar && op != t.IDXBinaryTildeSatPlus && op != t.IDXBinaryTildeSatMinus && op != t.IDXBinaryAmp && op != t.IDXBinaryPipe && op != t.IDXBinaryHat
+//@   ensures[star] implies(op == t.IDXBinaryStar && result1 == nil && old(factsHold(q)) && inR(lb, wval(lhs)), inR(result0, wval(lhs) * wval(rhs)))
+//@   ensures[slash] implies(op == t.IDXBinarySlash && result1 == nil && old(factsHold(q)) && inR(lb, wval(lhs)), wval(lhs) >= 0 && wval(rhs) > 0 && inR(result0, wval(lhs) / wval(rhs)))
+//@   ensures[percent] implies(op == t.IDXBinaryPercent && result1 == nil && old(factsHold(q)) && inB(lb, wval(lhs)), wval(lhs) >= 0 && wval(rhs) > 0 && inB(result0, emod(wval(lhs), wval(rhs))))
+//@   ensures[shl] implies(op == t.IDXBinaryShiftL && result1 == nil && old(factsHold(q)) && inR(lb, wval(lhs)), wval(rhs) >= 0 && inR(result0, wval(lhs) * pow2(wval(rhs))))
+//@   ensures[cmp] implies(isCmp(op) && result1 == nil, result0[0] == zero && result0[1] == one)
+//@   assume@after TryLsh#2 implies(result1, result0[0] != nil && result0[1] != nil)
+//@   assert@ret#12 [modshl] implies(op == t.IDXBinaryTildeModShiftL && result1 == nil && typeBounds[1] != nil && old(factsHold(q)) && inR(lb, wval(lhs)) && 0 <= wval(lhs), inR(result0, emod(wval(lhs) * pow2(wval(rhs)), bigval(typeBounds[1]) + 1)))
+//@   modifies *q
